@@ -9,7 +9,8 @@ open Snel Snel.Proto Snel.ColumnBlock Snel.Value
 Value tokens — JSON: `n t f p<dec> m<dec> d<16hex> s<hex> c<hex>`; scalar:
 `n t f i<dec> T<dec> d<16hex> s<hex>`; cell: `n i<dec> u<dec> d<16hex> t f b<hex>`.
 Oracle tables (external functions evaluated by the harness on the real libraries):
-`F<16hex>=<hex>` f64::to_string, `J<hex>=<verdict>` serde_json::from_str. -/
+`F<16hex>=<hex>` f64::to_string, `J<hex>=<verdict>` serde_json::from_str,
+`W<16hex>=<16hex>` f64 → serde_json text → f64. -/
 
 def hexNat? (s : String) : Option Nat :=
   s.toList.foldlM (fun acc c => (hexVal c).map (acc * 16 + ·)) 0
@@ -17,11 +18,9 @@ def hexNat? (s : String) : Option Nat :=
 def hex16 (n : Nat) : String :=
   String.ofList ((List.range 16).map fun i => hexDigit (n / 16 ^ (15 - i) % 16))
 
-def bytesToString? (b : List UInt8) : Option String := ofUtf8? b
+def unhexStr (s : String) : Option Bytes := unhex s
 
-def unhexStr (s : String) : Option String := (unhex s).bind bytesToString?
-
-def hexStr (s : String) : String := hexOfBytes (utf8Bytes s)
+def hexStr (s : Bytes) : String := hexOfBytes s
 
 def splitSections (ws : List String) : List (List String) :=
   let rec go (ws : List String) (cur : List String) (acc : List (List String)) : List (List String) :=
@@ -100,8 +99,9 @@ def parseVerdict (s : String) : Option Verdict := do
   | _ => none
 
 structure Tables where
-  fmt : List (Nat × String) := []
-  json : List (String × Verdict) := []
+  fmt : List (Nat × Bytes) := []
+  json : List (Bytes × Verdict) := []
+  wal : List (Nat × Nat) := []
   bad : Bool := false
 
 def parseTables (toks : List String) : Tables :=
@@ -113,6 +113,12 @@ def parseTables (toks : List String) : Tables :=
          | some a, some b => { t with fmt := (a, b) :: t.fmt }
          | _, _ => { t with bad := true }
        | _ => { t with bad := true })
+    | some ('W', r) =>
+      (match r.splitOn "=" with
+       | [a, b] => match hexNat? a, hexNat? b with
+         | some a, some b => { t with wal := (a, b) :: t.wal }
+         | _, _ => { t with bad := true }
+       | _ => { t with bad := true })
     | some ('J', r) =>
       (match r.splitOn "=" with
        | [a, b] => match unhexStr a, parseVerdict b with
@@ -122,12 +128,13 @@ def parseTables (toks : List String) : Tables :=
     | _ => { t with bad := true }) {}
 
 /-- A string no table has: makes a missing oracle entry visible in the diff. -/
-def missFmt : String := "<oracle-miss>"
+def missFmt : Bytes := "<oracle-miss>".toUTF8.data.toList
 
 def extOf (t : Tables) : Ext where
   parseF64 := Snel.F64Parse.parseF64
   fmtF64 := fun b => (t.fmt.lookup b).getD missFmt
   jsonParse := fun s => (t.json.lookup s).getD (.container missFmt)
+  walFloat := fun b => (t.wal.lookup b).getD 0x7ff8000000000bad
 
 def physOfCode? (s : String) : Option Phys :=
   match s.toNat? with
@@ -155,13 +162,13 @@ def blockAnswer (physTok : String) (vals : List String) (tabs : List String) : S
   | some phys, some scalars =>
     if t.bad then "bad-op" else
     let x := extOf t
-    let strs := scalars.map fun v => utf8Bytes (colString x v)
+    let strs := scalars.map fun v => colString x v
     let block := encodeBlock x.parseF64 phys strs
     let dec := match decodeBlock strs.length block with
       | none => "none"
       | some (p, cells) =>
-        s!"{p.code} " ++ " ".intercalate (cells.map showCell) ++ " # "
-          ++ " ".intercalate (cells.map fun c => showScalar (cellToScalar c))
+        " ".intercalate ([toString p.code] ++ cells.map showCell ++ ["#"]
+          ++ cells.map fun c => showScalar (cellToScalar c))
     hexOfBytes block ++ " " ++ dec
   | _, _ => "bad-op"
 
@@ -170,7 +177,8 @@ def decodeAnswer (rowsTok hexTok : String) : String :=
   | some rows, some bs =>
     (match decodeBlock rows bs with
      | none => "none"
-     | some (p, cells) => s!"{p.code} " ++ " ".intercalate (cells.map showCell))
+     | some (p, cells) => " ".intercalate ([toString p.code] ++ cells.map showCell ++ ["#"]
+          ++ cells.map fun c => showScalar (cellToScalar c)))
   | _, _ => "bad-op"
 
 def scalarAnswer (jt : String) (tabs : List String) : String :=
@@ -180,7 +188,7 @@ def scalarAnswer (jt : String) (tabs : List String) : String :=
     if t.bad then "bad-op" else
     let x := extOf t
     let v := ofJson j
-    let w := walTier v
+    let w := walTier x v
     " ".intercalate [showScalar v, showJson (toJson x v), showScalar w, showJson (toJson x w)]
   | none => "bad-op"
 
@@ -216,7 +224,7 @@ def flushAnswer (args : List String) (tabs : List String) : String :=
                   | some j =>
                     let v := ofJson j
                     let m := showJson (toJson x (memTier v))
-                    let w := showJson (toJson x (walTier v))
+                    let w := showJson (toJson x (walTier x v))
                     let f := showJson (toJson x (flushedTier x phys v))
                     let cp := showJson (toJson x (compactedTier x phys v))
                     s!"{m},{w},{f},{cp}"
@@ -232,7 +240,8 @@ def flushAnswer (args : List String) (tabs : List String) : String :=
      | none => "bad-op")
   | _ => "bad-op"
 
-def namesOf (toks : List String) : Option (List String) := toks.mapM unhexStr
+def namesOf (toks : List String) : Option (List String) :=
+  toks.mapM fun t => (unhex t).bind fun b => String.fromUTF8? ⟨b.toArray⟩
 
 def projectAnswer (secs0 : List (List String)) : String :=
   let sorted := secs0.length = 4 && secs0[3]? = some ["sorted"]
@@ -248,7 +257,7 @@ def projectAnswer (secs0 : List (List String)) : String :=
           let idx := ReturnProjection.projection inp ret payload
           let names := ReturnProjection.outNames inp idx
           let names := if sorted then (names.toArray.qsort (· < ·)).toList else names
-          " ".intercalate (names.map hexStr)
+          " ".intercalate (names.map fun n => hexOfBytes n.toUTF8.data.toList)
         | none => "bad-op")
      | _, _ => "bad-op")
   | _ => "bad-op"
